@@ -85,13 +85,13 @@ func ski(pub crypto.PublicKey) []byte {
 }
 
 type CAOpts struct {
-	Name      pkix.Name
-	RSA       bool
-	KeyUsage  x509.KeyUsage // 0 => CertSign|CRLSign
-	NoKU      bool
-	Serial    *big.Int
-	OCSPSign  bool // EKU OCSPSigning (for delegated responders)
-	NotCA     bool
+	Name     pkix.Name
+	RSA      bool
+	KeyUsage x509.KeyUsage // 0 => CertSign|CRLSign
+	NoKU     bool
+	Serial   *big.Int
+	OCSPSign bool // EKU OCSPSigning (for delegated responders)
+	NotCA    bool
 }
 
 func NewRootCA(cn string, rsaAlg bool) *CA {
@@ -329,10 +329,10 @@ func intTLV(n *big.Int) []byte {
 
 // EntryOpts describes one revokedCertificates entry.
 type EntryOpts struct {
-	Serial  *big.Int
-	When    time.Time
-	GenTime bool
-	Reason  int  // 0 => no reason extension
+	Serial   *big.Int
+	When     time.Time
+	GenTime  bool
+	Reason   int  // 0 => no reason extension
 	ExtraExt bool // add an invalidityDate extension
 }
 
@@ -365,27 +365,27 @@ func EntryTLV(o EntryOpts) []byte {
 }
 
 type CRLOpts struct {
-	Version     int // 0 => 2
-	Entries     []EntryOpts
-	RawEntries  [][]byte
-	NoList      bool // omit revokedCertificates even if empty... (DER: omitted when empty)
-	ForceList   bool // emit an empty revokedCertificates SEQUENCE
-	NoExts      bool
-	NoAKI       bool
+	Version         int // 0 => 2
+	Entries         []EntryOpts
+	RawEntries      [][]byte
+	NoList          bool // omit revokedCertificates even if empty... (DER: omitted when empty)
+	ForceList       bool // emit an empty revokedCertificates SEQUENCE
+	NoExts          bool
+	NoAKI           bool
 	AKIIssuerSerial bool // AKI with issuer+serial instead of keyId
-	AKIBoth     bool
-	Number      *big.Int
-	NoNumber    bool
-	CriticalExt asn1.ObjectIdentifier // add an unhandled critical extension
-	ExtraExtPad int                   // bytes of padding carried in a non-critical private extension
-	ThisUpdate  time.Time
-	NextUpdate  time.Time
-	NoNextUpdate bool
-	Alg         *SigAlg
-	SignKey     crypto.Signer // default: the CA key
-	IssuerRaw   []byte        // default: CA subject
-	AKIKeyId    []byte        // default: CA subject key id
-	BadSig      bool
+	AKIBoth         bool
+	Number          *big.Int
+	NoNumber        bool
+	CriticalExt     asn1.ObjectIdentifier // add an unhandled critical extension
+	ExtraExtPad     int                   // bytes of padding carried in a non-critical private extension
+	ThisUpdate      time.Time
+	NextUpdate      time.Time
+	NoNextUpdate    bool
+	Alg             *SigAlg
+	SignKey         crypto.Signer // default: the CA key
+	IssuerRaw       []byte        // default: CA subject
+	AKIKeyId        []byte        // default: CA subject key id
+	BadSig          bool
 }
 
 type akiStruct struct {
